@@ -151,11 +151,14 @@ pub fn par_map<I: Sync, O: Send>(inputs: &[I], f: impl Fn(&I) -> O + Sync) -> Ve
     std::thread::scope(|sc| {
         for (ins, outs) in inputs.chunks(chunk).zip(out.chunks_mut(chunk)) {
             let f = &f;
-            sc.spawn(move || {
-                for (i, o) in ins.iter().zip(outs.iter_mut()) {
-                    *o = Some(f(i));
-                }
-            });
+            std::thread::Builder::new()
+                .stack_size(256 << 20)
+                .spawn_scoped(sc, move || {
+                    for (i, o) in ins.iter().zip(outs.iter_mut()) {
+                        *o = Some(f(i));
+                    }
+                })
+                .expect("spawn");
         }
     });
     out.into_iter().map(|x| x.unwrap()).collect()
@@ -190,7 +193,22 @@ fn parse_mod(src: &str) -> Result<Mod, String> {
 }
 
 fn parsed_of(m: &Mod, src: &str) -> Parsed {
-    let ast = erase_positions(&format!("{:?}", m.0.definitions));
+    // imports are an unordered set: the formatter sorts `use` lines and the names inside `{..}`
+    // on purpose, so they are compared as sorted sets; every other definition in order
+    let mut uses: Vec<String> = vec![];
+    let mut others: Vec<String> = vec![];
+    for d in &m.0.definitions {
+        match d {
+            UntypedDefinition::Use(u) => {
+                let mut names: Vec<String> = u.unqualified.1.iter().map(|x| format!("{}:{:?}", x.name, x.as_name)).collect();
+                names.sort();
+                uses.push(format!("Use {:?} as {:?} {{{}}}", u.module, u.as_name, names.join(",")));
+            }
+            other => others.push(format!("{:?}", other)),
+        }
+    }
+    uses.sort();
+    let ast = erase_positions(&format!("{}\n{}", uses.join("\n"), others.join("\n")));
     let get = |spans: &Vec<aiken_lang::ast::Span>| -> Vec<String> {
         spans.iter().map(|s| src.get(s.start..s.end).unwrap_or("<bad-span>").trim_end().to_string()).collect()
     };
@@ -281,7 +299,13 @@ fn first_difference(a: &str, b: &str) -> (String, String) {
         i += 1;
     }
     let lo = i.saturating_sub(120);
-    let cut = |v: &Vec<char>| v[lo.min(v.len())..(i + 200).min(v.len())].iter().collect::<String>();
+    let cut = |v: &Vec<char>| {
+        format!(
+            "{}  <<<DIFFERS HERE>>>  {}",
+            v[lo.min(v.len())..i.min(v.len())].iter().collect::<String>(),
+            v[i.min(v.len())..(i + 200).min(v.len())].iter().collect::<String>()
+        )
+    };
     (cut(&ac), cut(&bc))
 }
 
@@ -768,4 +792,417 @@ fn corpus_lines(file: &str) -> Vec<String> {
     std::fs::read_to_string(format!("{}/corpus/C13/{}", verif_root(), file))
         .map(|s| s.lines().filter(|l| !l.trim().is_empty() && !l.starts_with('#')).map(|l| l.to_string()).collect())
         .unwrap_or_default()
+}
+
+// ------------------------------------------------------------------ c13-roundtrip
+
+fn walk_ak(dir: &std::path::Path, out: &mut Vec<std::path::PathBuf>) {
+    if let Ok(rd) = std::fs::read_dir(dir) {
+        let mut es: Vec<_> = rd.filter_map(|e| e.ok()).map(|e| e.path()).collect();
+        es.sort();
+        for p in es {
+            if p.is_dir() {
+                walk_ak(&p, out);
+            } else if p.extension().map(|x| x == "ak").unwrap_or(false) {
+                out.push(p);
+            }
+        }
+    }
+}
+
+pub fn shipped_files() -> Vec<(String, String)> {
+    let root = format!("{}/repo", verif_root());
+    let mut paths = vec![];
+    for d in ["examples", "benchmarks"] {
+        walk_ak(std::path::Path::new(&format!("{root}/{d}")), &mut paths);
+    }
+    paths
+        .into_iter()
+        .filter_map(|p| {
+            let rel = p.strip_prefix(&root).ok()?.to_string_lossy().to_string();
+            let src = std::fs::read_to_string(&p).ok()?;
+            Some((rel, src))
+        })
+        .collect()
+}
+
+fn corpus_files() -> Vec<(String, String)> {
+    let mut paths = vec![];
+    walk_ak(std::path::Path::new(&format!("{}/corpus/C13", verif_root())), &mut paths);
+    paths
+        .into_iter()
+        .filter_map(|p| Some((p.file_name()?.to_string_lossy().to_string(), std::fs::read_to_string(&p).ok()?)))
+        .collect()
+}
+
+fn slug(s: &str) -> String {
+    s.chars().map(|c| if c.is_ascii_alphanumeric() { c.to_ascii_lowercase() } else { '-' }).collect()
+}
+
+pub fn roundtrip(ctx: &Ctx, extra: &[String]) -> Report {
+    let mut rep = Report::new(
+        "c13-roundtrip",
+        "REAL code only: parse(src) ok => out = format(src); parse(out) ok and equal after erasing positions (and the \
+         pipeline layout flag one_liner); comments, doc comments, module comments retained in order; format(out) == out. \
+         Inputs: corpus/C13/*.ak, every .ak under /repo/examples and /repo/benchmarks, generated modules over the surface \
+         grammar (c13gen.rs). Non-trivial = distinct parseable source text",
+    );
+    let n: usize = extra_arg(extra, "--n").and_then(|x| x.parse().ok()).unwrap_or(1500);
+    let adversarial = extra.iter().any(|a| a == "--adversarial");
+    if adversarial {
+        rep.name = "c13-roundtrip-adversarial".into();
+    }
+    let mut rng = Prng::new(ctx.seed ^ 0xC13);
+    // (label, source, parts for shrinking)
+    let mut cases: Vec<(String, String, Vec<String>)> = vec![];
+    if !adversarial {
+        for (name, src) in corpus_files() {
+            cases.push((format!("corpus:{name}"), src, vec![]));
+        }
+        let shipped = shipped_files();
+        rep.count_n("shipped-files", shipped.len() as u64);
+        for (rel, src) in shipped {
+            cases.push((format!("file:{rel}"), src, vec![]));
+        }
+    }
+    let mut feats: std::collections::BTreeMap<&'static str, u64> = Default::default();
+    for i in 0..n {
+        let mut r = rng.fork();
+        let comments = i % 3 != 0;
+        let mut g = crate::c13gen::G::new(&mut r, comments);
+        g.adversarial = adversarial;
+        let (ndefs, depth) = match i % 10 {
+            0..=4 => (1, 1 + i % 3),
+            5..=7 => (2, 3),
+            8 => (4, 3),
+            _ => (3, 4),
+        };
+        // keep the definitions apart so that a failing module can be cut down to one definition
+        let mut parts = vec![];
+        let head = g.module(0, 0);
+        for d in 0..ndefs {
+            parts.push(g.definition(d, depth));
+        }
+        let src = format!("{}\n{}", head, parts.join("\n"));
+        for (k, v) in g.feats.iter() {
+            *feats.entry(k).or_insert(0) += v;
+        }
+        let mut all = vec![head];
+        all.extend(parts);
+        cases.push((format!("gen:{i}"), src, all));
+    }
+    let outcomes = par_map(&cases, |(_, src, _)| check_property(src));
+    // smallest failing source per signature
+    let mut by_sig: std::collections::BTreeMap<String, (String, String, &'static str, serde_json::Value, u64)> = Default::default();
+    for ((label, src, parts), oc) in cases.iter().zip(outcomes.into_iter()) {
+        rep.evaluations += 1;
+        let kind = label.split(':').next().unwrap_or("");
+        match oc {
+            Outcome::Unparseable(e) => {
+                rep.count(&format!("{kind}-unparseable"));
+                if kind != "gen" {
+                    rep.notes.push(format!("{label} does not parse: {e}"));
+                } else if rep.notes.len() < 6 {
+                    rep.notes.push(format!("generated module rejected by the parser ({e}): {}", src.chars().take(160).collect::<String>()));
+                }
+            }
+            Outcome::Ok { one_liner_flips, out } => {
+                rep.count(&format!("{kind}-ok"));
+                if one_liner_flips {
+                    rep.count("one_liner-flag-changed");
+                }
+                if *src == out {
+                    rep.count(&format!("{kind}-already-formatted"));
+                }
+                rep.nontrivial.insert(short_hash(src));
+                if kind == "gen" && rep.samples.len() < 3 && src.len() > 200 {
+                    rep.sample(json!({"source": src, "formatted": out}));
+                }
+            }
+            Outcome::Fail { what, detail } => {
+                rep.count(&format!("{kind}-FAIL"));
+                rep.nontrivial.insert(short_hash(src));
+                // cut a generated module down to the smallest single definition that fails the same way
+                let mut best = src.clone();
+                let mut best_detail = detail.clone();
+                if parts.len() > 1 {
+                    for p in &parts[1..] {
+                        for cand in [p.clone(), format!("{}\n{}", parts[0], p)] {
+                            if cand.len() < best.len() {
+                                if let Outcome::Fail { what: w2, detail: d2 } = check_property(&cand) {
+                                    if w2 == what {
+                                        best = cand;
+                                        best_detail = d2;
+                                    }
+                                }
+                            }
+                        }
+                    }
+                }
+                if kind != "gen" {
+                    rep.fail(&format!("roundtrip:{label}"), what, json!({"source": best, "origin": label}), best_detail);
+                } else {
+                    // group by error kind, or by the node kinds at the first AST difference
+                    let word = |k: &str| -> String {
+                        best_detail
+                            .get(k)
+                            .and_then(|x| x.as_str())
+                            .and_then(|x| x.split("<<<DIFFERS HERE>>>  ").nth(1))
+                            .map(|x| x.chars().take_while(|c| c.is_alphanumeric() || *c == '_').collect())
+                            .unwrap_or_default()
+                    };
+                    let err_kind: String = best_detail
+                        .get("error")
+                        .and_then(|e| e.as_str())
+                        .and_then(|e| e.split("first: Some(").nth(1))
+                        .map(|e| e.split(|c: char| !(c.is_alphanumeric() || c == '(')).next().unwrap_or("").replace('(', "-"))
+                        .unwrap_or_default();
+                    let sig = if adversarial {
+                        format!("adversarial:{}", slug(what))
+                    } else {
+                        format!("{}:{}:{}>{}", slug(what), err_kind, word("ast_before_at_difference"), word("ast_after_at_difference"))
+                    };
+                    let e = by_sig.entry(sig).or_insert((best.clone(), label.clone(), what, best_detail.clone(), 0));
+                    e.4 += 1;
+                    if best.len() < e.0.len() {
+                        *e = (best, label.clone(), what, best_detail, e.4);
+                    }
+                }
+            }
+        }
+    }
+    for (_sig, (src, label, what, detail, count)) in by_sig {
+        rep.fail(
+            &format!("roundtrip:gen:{}", _sig),
+            what,
+            json!({"source": src, "origin": label, "generated_modules_failing_this_way": count}),
+            detail,
+        );
+    }
+    for (k, v) in feats {
+        rep.count_n(&format!("feature:{k}"), v);
+    }
+    rep
+}
+
+// ------------------------------------------------------------------ c20-aiken-text
+
+const GARBAGE: [&str; 40] = [
+    "{", "}", "(", ")", "[", "]", "\"", "@\"", "#\"", "#[", "//", "///", "////", "\\", "|>", "||", "&&", "<-", "->", "..", "=", "-",
+    "\n", "\r\n", "\t", "\0", "é", "0x", "1_", "1st", "99999999999999999999th", "when", "is", "fn", "let", "expect", "if", "else", "_", "?",
+];
+
+fn mutate(src: &str, rng: &mut Prng) -> String {
+    let chars: Vec<char> = src.chars().collect();
+    if chars.is_empty() {
+        return GARBAGE[rng.below(GARBAGE.len())].to_string();
+    }
+    let mut c = chars.clone();
+    for _ in 0..1 + rng.below(4) {
+        if c.is_empty() {
+            break;
+        }
+        let i = rng.below(c.len());
+        match rng.below(7) {
+            0 => c.truncate(i),
+            1 => {
+                c.remove(i);
+            }
+            2 => {
+                let g: Vec<char> = GARBAGE[rng.below(GARBAGE.len())].chars().collect();
+                for (k, ch) in g.into_iter().enumerate() {
+                    c.insert(i + k, ch);
+                }
+            }
+            3 => {
+                let j = (i + 1 + rng.below(40)).min(c.len());
+                let piece: Vec<char> = c[i..j].to_vec();
+                let at = rng.below(c.len());
+                for (k, ch) in piece.into_iter().enumerate() {
+                    c.insert(at + k, ch);
+                }
+            }
+            4 => {
+                let j = (i + 1 + rng.below(60)).min(c.len());
+                c.drain(i..j);
+            }
+            5 => c[i] = GARBAGE[rng.below(GARBAGE.len())].chars().next().unwrap(),
+            _ => c = c[i..].to_vec(),
+        }
+    }
+    c.into_iter().collect()
+}
+
+fn lex_parse_format(src: &str) -> &'static str {
+    let _ = aiken_lang::parser::lexer::run(src);
+    match parser::module(src, ModuleKind::Lib) {
+        Ok((m, x)) => {
+            let mut out = String::new();
+            aiken_lang::format::pretty(&mut out, m, x, src);
+            "formatted"
+        }
+        Err(_) => "rejected",
+    }
+}
+
+/// child-process mode for inputs that may overflow the stack (a crash no `catch_unwind` can see)
+pub fn c20_one(extra: &[String]) -> ! {
+    let src = std::fs::read_to_string(&extra[0]).expect("file");
+    let r = std::thread::Builder::new()
+        .stack_size(8 << 20) // what a main thread of `aiken fmt` gets
+        .spawn(move || guarded(|| lex_parse_format(&src)))
+        .unwrap()
+        .join();
+    match r {
+        Ok(Ok(_)) => std::process::exit(0),
+        Ok(Err(_)) => std::process::exit(3),
+        Err(_) => std::process::exit(3),
+    }
+}
+
+pub fn c20_aiken_text(ctx: &Ctx, extra: &[String]) -> Report {
+    let mut rep = Report::new(
+        "c20-aiken-text",
+        "EXPLORATION (fuzzing, no model): mutated / truncated / spliced / garbage Aiken source (size cap) through the real \
+         lexer, parser and, when it parses, formatter. A panic, a crash of the child process or exceeding the per-case \
+         time limit is a failure. Non-trivial = distinct input text",
+    );
+    let n: usize = extra_arg(extra, "--n").and_then(|x| x.parse().ok()).unwrap_or(3000);
+    let cap: usize = extra_arg(extra, "--cap").and_then(|x| x.parse().ok()).unwrap_or(3000);
+    let limit_s: u64 = extra_arg(extra, "--limit-s").and_then(|x| x.parse().ok()).unwrap_or(30);
+    let mut rng = Prng::new(ctx.seed ^ 0xC20);
+    let mut seeds: Vec<String> = shipped_files().into_iter().map(|(_, s)| s).collect();
+    for (_, s) in corpus_files() {
+        seeds.push(s);
+    }
+    for i in 0..60 {
+        let mut r = rng.fork();
+        let mut g = crate::c13gen::G::new(&mut r, true);
+        seeds.push(g.module(1 + i % 3, 3));
+    }
+    let mut inputs: Vec<String> = vec![];
+    for line in corpus_lines("c20-text.txt") {
+        inputs.push(line.replace("\\n", "\n"));
+    }
+    for _ in 0..n {
+        let base = &seeds[rng.below(seeds.len())];
+        // a window of the file, cut at char boundaries
+        let chars: Vec<char> = base.chars().collect();
+        let start = if chars.len() > cap && rng.chance(1, 2) { rng.below(chars.len() - cap) } else { 0 };
+        let window: String = chars[start..(start + cap).min(chars.len())].iter().collect();
+        let m = match rng.below(10) {
+            0 => (0..1 + rng.below(30)).map(|_| GARBAGE[rng.below(GARBAGE.len())]).collect::<Vec<_>>().join(if rng.chance(1, 2) { " " } else { "" }),
+            1 => {
+                let other = &seeds[rng.below(seeds.len())];
+                let oc: Vec<char> = other.chars().collect();
+                let k = rng.below(oc.len().max(1));
+                let piece: String = oc[k..(k + 200).min(oc.len())].iter().collect();
+                let at = rng.below(chars.len().min(cap).max(1));
+                let w: Vec<char> = window.chars().collect();
+                format!("{}{}{}", w[..at.min(w.len())].iter().collect::<String>(), piece, w[at.min(w.len())..].iter().collect::<String>())
+            }
+            _ => mutate(&window, &mut rng),
+        };
+        inputs.push(m);
+    }
+    // in-process with a watchdog per batch element
+    let results = par_map(&inputs, |src| {
+        let s2 = src.clone();
+        let (tx, rx) = std::sync::mpsc::channel();
+        let t0 = std::time::Instant::now();
+        let _ = std::thread::Builder::new().stack_size(256 << 20).spawn(move || {
+            let r = guarded(|| lex_parse_format(&s2));
+            let _ = tx.send(r);
+        });
+        match rx.recv_timeout(std::time::Duration::from_secs(limit_s)) {
+            Ok(Ok(k)) => (k.to_string(), t0.elapsed().as_millis()),
+            Ok(Err(p)) => (format!("PANIC {p}"), t0.elapsed().as_millis()),
+            Err(_) => ("TIMEOUT".to_string(), t0.elapsed().as_millis()),
+        }
+    });
+    let mut slowest = 0u128;
+    for (src, (r, ms)) in inputs.iter().zip(results.iter()) {
+        rep.evaluations += 1;
+        rep.nontrivial.insert(short_hash(src));
+        slowest = slowest.max(*ms);
+        if r.starts_with("PANIC") {
+            rep.count("panic");
+            rep.fail(&format!("c20-aiken-text:panic:{}", short_hash(src)), "lexer/parser/formatter panics on malformed source text", json!({"source": src}), json!({"outcome": r}));
+        } else if r == "TIMEOUT" {
+            rep.count("timeout");
+            rep.fail(&format!("c20-aiken-text:hang:{}", short_hash(src)), "lexer/parser/formatter does not finish within the time limit", json!({"source": src, "limit_s": limit_s}), json!({}));
+        } else {
+            rep.count(r);
+        }
+    }
+    // deep nesting / long chains in a child process (a stack overflow aborts the process)
+    let depths: &[usize] = if ctx.thorough { &[50, 200, 1000, 5000] } else { &[50, 200, 1000] };
+    let exe = std::env::current_exe().expect("exe");
+    let dir = std::env::temp_dir().join(format!("c20-{}", std::process::id()));
+    let _ = std::fs::create_dir_all(&dir);
+    let mut nested: Vec<(String, String)> = vec![];
+    for &d in depths {
+        nested.push((format!("parens-{d}"), format!("fn f() {{ {}1{} }}", "(".repeat(d), ")".repeat(d))));
+        nested.push((format!("lists-{d}"), format!("fn f() {{ {}1{} }}", "[".repeat(d), "]".repeat(d))));
+        nested.push((format!("blocks-{d}"), format!("fn f() {{ {}1{} }}", "{".repeat(d), "}".repeat(d))));
+        nested.push((format!("unclosed-parens-{d}"), format!("fn f() {{ {}1 }}", "(".repeat(d))));
+        nested.push((format!("negations-{d}"), format!("fn f() {{ {}1 }}", "-".repeat(d))));
+        nested.push((format!("bangs-{d}"), format!("fn f() {{ {}a }}", "!".repeat(d))));
+        nested.push((format!("sum-chain-{d}"), format!("fn f() {{ 1{} }}", " + 1".repeat(d))));
+        nested.push((format!("and-chain-{d}"), format!("fn f() {{ a{} }}", " && a".repeat(d))));
+        nested.push((format!("pipe-chain-{d}"), format!("fn f() {{ a{} }}", " |> f".repeat(d))));
+        nested.push((format!("type-nesting-{d}"), format!("type T = {}Int{}", "List<".repeat(d), ">".repeat(d))));
+        nested.push((format!("pattern-nesting-{d}"), format!("fn f(x) {{ when x is {{ {}y{} -> 1 }} }}", "Some(".repeat(d), ")".repeat(d))));
+        nested.push((format!("when-nesting-{d}"), format!("fn f(x) {{ {}1{} }}", "when x is { _ -> ".repeat(d), " }".repeat(d))));
+    }
+    for (name, src) in nested {
+        let path = dir.join(format!("{name}.ak"));
+        std::fs::write(&path, &src).unwrap();
+        let t0 = std::time::Instant::now();
+        let mut child = std::process::Command::new(&exe)
+            .arg("c20-one")
+            .arg(&path)
+            .stdout(std::process::Stdio::null())
+            .stderr(std::process::Stdio::null())
+            .spawn()
+            .expect("spawn self");
+        let status = loop {
+            match child.try_wait() {
+                Ok(Some(st)) => break Some(st),
+                Ok(None) if t0.elapsed().as_secs() > 4 * limit_s => {
+                    let _ = child.kill();
+                    let _ = child.wait();
+                    break None;
+                }
+                Ok(None) => std::thread::sleep(std::time::Duration::from_millis(20)),
+                Err(_) => break None,
+            }
+        };
+        rep.evaluations += 1;
+        rep.nontrivial.insert(name.clone());
+        let shape = json!({"shape": name, "source_bytes": src.len(), "source_head": src.chars().take(80).collect::<String>()});
+        match status {
+            Some(st) if st.code() == Some(0) => rep.count("nested-ok"),
+            Some(st) if st.code() == Some(3) => {
+                rep.count("nested-panic");
+                rep.fail(&format!("c20-aiken-text:nested-panic:{name}"), "lexer/parser/formatter panics on deeply nested source", shape, json!({}));
+            }
+            Some(st) => {
+                rep.count("nested-crash");
+                rep.fail(
+                    &format!("c20-aiken-text:nested-crash:{name}"),
+                    "process crashes (stack overflow / abort) on deeply nested source with the default 8 MiB stack",
+                    shape,
+                    json!({"status": format!("{:?}", st)}),
+                );
+            }
+            None => {
+                rep.count("nested-timeout");
+                rep.fail(&format!("c20-aiken-text:nested-hang:{name}"), "does not finish within the time limit on deeply nested source", shape, json!({"limit_s": 4 * limit_s}));
+            }
+        }
+    }
+    let _ = std::fs::remove_dir_all(&dir);
+    rep.notes.push(format!("slowest in-process case {slowest} ms; size cap {cap} chars; per-case limit {limit_s} s"));
+    rep
 }
